@@ -26,9 +26,10 @@ func oracleC18(v *View, vd *Verdict) {
 	finalDone := false
 	ncbAfter := 0
 	changedTo := ""
+	sawFinal := false
 	for _, rec := range v.R.Hist {
-		if rec.Ch != "tx" {
-			continue
+		if rec.Ch != "tx" || sawFinal {
+			continue // what happens after the final observation (end of the run) is not judged
 		}
 		switch rec.Kind {
 		case "finally":
@@ -47,6 +48,7 @@ func oracleC18(v *View, vd *Verdict) {
 		case "final":
 			finalErr = rec.S
 			finalDone = rec.I == 1
+			sawFinal = true
 		}
 	}
 	if finalDone || doneSeen {
